@@ -75,7 +75,7 @@ def gen_sign_case(r):
 def c14(ctx):
     quick = ctx.tier == 'quick'
     r = ctx.rng('c14')
-    n = 500 if quick else 8000
+    n = 1200 if quick else 8000
     pairs = [gen_sign_case(r) for _ in range(n)]
     flat = [x for ab in pairs for x in ab]
     with ET.Scratch() as sc:
@@ -170,7 +170,7 @@ def real_gpg(ctx, r, quick):
     kd = gpgenv.keydata()
     old_home = os.environ.get('GNUPGHOME')
     st = {'signed_and_verified': 0, 'plain': 0, 'signing_failure_reported': 0, 'runs': 0}
-    n = 24 if quick else 160
+    n = 40 if quick else 160
     try:
         with gpgenv.GpgHome() as usable, gpgenv.GpgHome() as pubonly, ET.Scratch() as sc:
             usable.import_key(kd.PRIVATE_KEY)
@@ -219,8 +219,10 @@ def real_gpg(ctx, r, quick):
                             ctx.violation('spec', f'the requested key has no usable secret key, signing wanted, but the save succeeded ({"signed" if is_signed else "unsigned"} Manifest written)', replay)
                         else:
                             st['signing_failure_reported'] += 1
+                    elif res == 'OpenPGPSigningFailure':
+                        ctx.violation('spec', 'signing failed although the requested key is usable', replay)
                     elif res != 'ok':
-                        ctx.violation('spec', f'save failed with {res}', replay)
+                        st['other_errors'] = st.get('other_errors', 0) + 1      # something else is wrong with the generated tree
                     elif want:
                         rc, status, clear = usable.verify(topb.decode('utf8'))
                         good = rc == 0 and any(l.startswith(b'[GNUPG:] VALIDSIG ' + kd.KEY_FINGERPRINT.encode()) for l in status)
